@@ -5,8 +5,13 @@
 //
 // Case line (fields separated by one blank):
 //
-//	pool <perinst 0|1> <discard 0|1> <T> <A> <rps-spec> <startup-spec> <shoot_us> <past_ms>
+//	pool <perinst 0|1> <discard 0|1> <T> <A> <rps-spec> <startup-spec> <shoot_us> <past_ms> <S> <prov>
 //
+//	S        tokens of the startup schedule (what <startup-spec> is meant to hold)
+//	prov     how the provider's Run behaves: 0 blocks until its context is done (a reader that never
+//	         finishes early), 1 returns nil at once (the whole ammo set sits in the ready queue before
+//	         the run), 2 returns nil a few ms into the run (reader done while instances shoot)
+
 //	T        tokens of ONE rps profile (what <rps-spec> is meant to hold)
 //	A        ammo items the provider hands out
 //	spec     parts joined by '+': once:n | const:ops:ms | step:from:to:step:ms | line:from:to:ms |
@@ -41,6 +46,12 @@
 //	G<i> instance i created      L<i>z|L<i>n sched.Left()==0 / >0     A<i>=<a>|A<i>- Acquire
 //	N<i>+|N<i>- sched.Next ok/!ok   S<i>=<a> gun.Shoot(a)   D<i> discarded sample reported
 //	R<i>=<a> Release(a)          E run over
+//
+// and, in the same global order, what the pool's await loop received (taken from the engine's own
+// debug log through a zap core that appends to the same log under the same mutex):
+//
+//	P provider result   Q aggregator result   T<n>n|T<n>c start loop over, n started, error nil / ctx
+//	I<i>n|I<i>o|I<i>x result of instance i: nil / out of ammo / anything else
 package main
 
 import (
@@ -65,6 +76,7 @@ import (
 	"github.com/yandex/pandora/core/schedule"
 	"github.com/yandex/pandora/lib/monitoring"
 	"go.uber.org/zap"
+	"go.uber.org/zap/zapcore"
 
 	"verifharness/internal/vh"
 )
@@ -88,6 +100,60 @@ type recorder struct {
 	evs  []ev
 	bind map[uint64]int // gid that executed the k-th Bind (k >= 1) -> k
 	nb   int
+	byID map[int]int // InstanceID given to the k-th Bind -> k
+}
+
+// awaitCore is a zap core that turns the await loop's debug messages into log entries.
+type awaitCore struct{ rec *recorder }
+
+func (c *awaitCore) Enabled(zapcore.Level) bool        { return true }
+func (c *awaitCore) With([]zapcore.Field) zapcore.Core { return c }
+func (c *awaitCore) Sync() error                       { return nil }
+func (c *awaitCore) Check(e zapcore.Entry, ce *zapcore.CheckedEntry) *zapcore.CheckedEntry {
+	switch e.Message {
+	case "AmmoQueue awaited", "Aggregator awaited", "Instances start awaited", "Instance run awaited":
+		return ce.AddCore(e, c)
+	}
+	return ce
+}
+func (c *awaitCore) Write(e zapcore.Entry, fields []zapcore.Field) error {
+	enc := zapcore.NewMapObjectEncoder()
+	for _, f := range fields {
+		f.AddTo(enc)
+	}
+	errClass := 0 // nil
+	if v, ok := enc.Fields["error"]; ok {
+		switch fmt.Sprint(v) {
+		case "Out of ammo":
+			errClass = 1
+		case context.Canceled.Error():
+			errClass = 2
+		default:
+			errClass = 3
+		}
+	}
+	num := func(k string) int {
+		switch v := enc.Fields[k].(type) {
+		case int64:
+			return int(v)
+		case int:
+			return v
+		}
+		return -1
+	}
+	c.rec.mu.Lock()
+	defer c.rec.mu.Unlock()
+	switch e.Message {
+	case "AmmoQueue awaited":
+		c.rec.evs = append(c.rec.evs, ev{'P', 0, errClass})
+	case "Aggregator awaited":
+		c.rec.evs = append(c.rec.evs, ev{'Q', 0, errClass})
+	case "Instances start awaited":
+		c.rec.evs = append(c.rec.evs, ev{'T', uint64(num("started")), errClass})
+	case "Instance run awaited":
+		c.rec.evs = append(c.rec.evs, ev{'I', uint64(num("id")), errClass})
+	}
+	return nil
 }
 
 func (r *recorder) add(kind byte, arg int) {
@@ -105,9 +171,23 @@ type provider struct {
 	acquired  atomic.Int64
 	released  atomic.Int64
 	relUnknow atomic.Int64
+	mode      int // 0: Run blocks until ctx is done; 1: returns nil at once; 2: returns nil after a few ms
 }
 
-func (p *provider) Run(ctx context.Context, _ core.ProviderDeps) error { <-ctx.Done(); return nil }
+func (p *provider) Run(ctx context.Context, _ core.ProviderDeps) error {
+	switch p.mode {
+	case 1:
+		return nil
+	case 2:
+		select {
+		case <-ctx.Done():
+		case <-time.After(3 * time.Millisecond):
+		}
+		return nil
+	}
+	<-ctx.Done()
+	return nil
+}
 func (p *provider) Acquire() (core.Ammo, bool) {
 	p.rec.mu.Lock()
 	defer p.rec.mu.Unlock()
@@ -184,6 +264,7 @@ func (g *gun) Bind(_ core.Aggregator, deps core.GunDeps) error {
 	if k >= 1 {
 		g.rec.bind[gid()] = k
 	}
+	g.rec.byID[deps.InstanceID] = k
 	g.rec.add('G', k)
 	return nil
 }
@@ -462,17 +543,18 @@ func runCase(c string) string {
 	if f[0] == "cfgpool" && len(f) == 6 {
 		return runCfgPool(f)
 	}
-	if f[0] != "pool" || len(f) != 9 {
+	if f[0] != "pool" || len(f) != 11 {
 		return "unknown-case"
 	}
+	provMode, _ := strconv.Atoi(f[10])
 	perInst := f[1] == "1"
 	disc := f[2] == "1"
 	A, _ := strconv.Atoi(f[4])
 	shootUs, _ := strconv.Atoi(f[7])
 	pastMs, _ := strconv.Atoi(f[8])
 
-	rec := &recorder{bind: map[uint64]int{}}
-	prov := &provider{rec: rec, left: A}
+	rec := &recorder{bind: map[uint64]int{}, byID: map[int]int{}}
+	prov := &provider{rec: rec, left: A, mode: provMode}
 	ag := &aggr{rec: rec}
 	var shots, drawn atomic.Int64
 	metrics := engine.Metrics{
@@ -499,7 +581,7 @@ func runCase(c string) string {
 		StartupSchedule: buildSched(f[6]),
 		DiscardOverflow: disc,
 	}
-	eng := engine.New(zap.NewNop(), metrics, engine.Config{Pools: []engine.InstancePoolConfig{conf}})
+	eng := engine.New(zap.New(&awaitCore{rec: rec}), metrics, engine.Config{Pools: []engine.InstancePoolConfig{conf}})
 	done := make(chan error, 1)
 	go func() {
 		defer func() {
@@ -539,6 +621,26 @@ func runCase(c string) string {
 		}
 		if e.kind == 'G' {
 			fmt.Fprintf(&sb, "G%d", e.arg)
+			continue
+		}
+		if e.kind == 'P' || e.kind == 'Q' || e.kind == 'T' || e.kind == 'I' {
+			cls := string("nocx"[e.arg])
+			switch e.kind {
+			case 'P', 'Q':
+				sb.WriteByte(e.kind)
+				if e.arg != 0 {
+					sb.WriteString(cls)
+				}
+			case 'T':
+				fmt.Fprintf(&sb, "T%d%s", int(e.gid), cls)
+			case 'I':
+				k, ok := rec.byID[int(e.gid)]
+				if !ok {
+					k = -1
+					outcome = "gidmap"
+				}
+				fmt.Fprintf(&sb, "I%d%s", k, cls)
+			}
 			continue
 		}
 		i, ok := idx[e.gid]
@@ -655,20 +757,37 @@ func (p prof) fixOnce() prof {
 	return p
 }
 
+// a const startup part whose token count ops*ms/1000 is exact in float64 as well
+func startConst(r *vh.Rand, ops, msec []int) string {
+	for {
+		o, m := r.PickInt(ops), r.PickInt(msec)
+		if constOK(o, m) {
+			return fmt.Sprintf("const:%d:%d", o, m)
+		}
+	}
+}
+
 func genStartup(r *vh.Rand, tier string) string {
 	maxI := 12
 	if tier == "thorough" && r.Chance(1, 10) {
 		maxI = 64
 	}
-	switch r.Intn(8) {
+	switch r.Intn(11) {
+	case 8:
+		// the first instance is started later than t=0: a pause, then the instances
+		return fmt.Sprintf("const:0:%d+once:%d", r.PickInt([]int{15, 30, 60}), r.Range(1, 6))
+	case 9:
+		return fmt.Sprintf("istep:0:%d:%d:%d", r.Range(2, 6), r.Range(1, 2), r.PickInt([]int{10, 20, 40}))
+	case 10:
+		return fmt.Sprintf("const:0:%d+%s", r.PickInt([]int{10, 25}), startConst(r, []int{100, 200}, []int{20, 30}))
 	case 0, 1, 2, 3, 4:
 		return fmt.Sprintf("once:%d", r.Range(1, maxI))
 	case 5:
-		return fmt.Sprintf("const:%d:%d", r.PickInt([]int{100, 200}), r.PickInt([]int{20, 30, 50}))
+		return startConst(r, []int{100, 200}, []int{20, 30, 50})
 	case 6:
 		return fmt.Sprintf("istep:%d:%d:%d:%d", r.Range(1, 3), r.Range(3, 8), r.Range(1, 3), r.PickInt([]int{5, 10, 20}))
 	default:
-		return fmt.Sprintf("once:%d+const:%d:%d", r.Range(1, 4), r.PickInt([]int{100, 200}), r.PickInt([]int{20, 30}))
+		return fmt.Sprintf("once:%d+%s", r.Range(1, 4), startConst(r, []int{100, 200}, []int{20, 30}))
 	}
 }
 
@@ -807,7 +926,10 @@ func gen(r *vh.Rand, tier string) []string {
 				past = 2000 + p.durM/2
 			}
 		}
-		out = append(out, fmt.Sprintf("pool %s %s %d %d %s %s %d %d", vh.B(perInst), vh.B(disc), p.n, A, p.spec, st, shoot, past))
+		// the provider's Run: still reading when the pool ends / everything queued before the run / done early in the run
+		prov := r.PickInt([]int{0, 0, 1, 1, 2})
+		out = append(out, fmt.Sprintf("pool %s %s %d %d %s %s %d %d %d %d", vh.B(perInst), vh.B(disc), p.n, A, p.spec, st, shoot, past,
+			startupCount(st), prov))
 	}
 	return out
 }
